@@ -1,0 +1,14 @@
+//go:build verif
+
+package simhook
+
+// Yield, when set, is called at every yield point. It is meant to be set once,
+// before the library is used, by a simulation harness.
+var Yield func(site int)
+
+// Point calls Yield, if installed.
+func Point(site int) {
+	if Yield != nil {
+		Yield(site)
+	}
+}
